@@ -46,7 +46,7 @@ def confirm(wt, mdir, prop, name):
         res["suite_with_patch"] = {"passed": passed, "ok": ok}
         shutil.copy(demo, tpath)
         r = sh(f"cargo test --offline {feat} --test {tname} 2>&1", cwd=wt)
-        res["demo_with_patch_fails"] = (r.returncode != 0 and "test result: FAILED" in r.stdout)
+        res["demo_with_patch_fails"] = (r.returncode != 0 and ("test result: FAILED" in r.stdout or "process abort signal" in r.stdout or "signal: 11" in r.stdout))
         res["demo_with_patch_tail"] = r.stdout[-600:]
         sh("git checkout -- src cpp", cwd=wt)
         r = sh(f"cargo test --offline {feat} --test {tname} 2>&1", cwd=wt)
